@@ -10,6 +10,7 @@ import (
 	"fmt"
 	"os"
 	"path/filepath"
+	"strings"
 	"testing"
 	"time"
 
@@ -232,5 +233,32 @@ func TestUnsignedAmzHeaderAddedToACapturedRequestIsRefused(t *testing.T) {
 	if r.Status/100 == 2 || string(got.Body) == "content-of-another-object" || got.Header.Get("X-Amz-Meta-Role") != "" {
 		t.Errorf("the captured request with two added x-amz-* headers answered %d; /bkt/public now holds %q with x-amz-meta-role %q",
 			r.Status, got.Body, got.Header.Get("X-Amz-Meta-Role"))
+	}
+}
+
+// Presigned URLs: (1) a query parameter named "#" (sent as %23) was written unescaped into the URL the signature is
+// recomputed for, where it starts a fragment — every parameter after it was outside the signature but seen by the
+// handlers (versionId, tagging, …); (2) the path the signature was recomputed for was decoded once more than the path
+// the handlers use, so a URL signed for /bkt/aA served the key "a%41".
+func TestPresignedUrlCannotBeExtendedOrRedirected(t *testing.T) {
+	g := gwtest.Start(t, gwtest.Options{})
+	g.MustStatus(g.Put(g.RootC, "/bkt", nil, nil), 200, "create bucket")
+	g.MustStatus(g.Put(g.RootC, "/bkt/aA", []byte("object aA"), nil), 200, "put aA")
+	g.MustStatus(g.Put(g.RootC, "/bkt/a%2541", []byte("object a%41"), nil), 200, "put the key a%41")
+	g.MustStatus(g.Put(g.RootC, "/bkt/tagged", []byte("x"), map[string]string{"X-Amz-Tagging": "a=b"}), 200, "put tagged")
+	now := time.Now().UTC()
+	u := g.Presign(g.RootC, "GET", "/bkt/aA", 600, now)
+	if r := g.Do(gwtest.Req{Method: "GET", Target: u, NoAuth: true}); r.Status != 200 || string(r.Body) != "object aA" {
+		t.Fatalf("valid presigned GET: %d %q", r.Status, r.Body)
+	}
+	// (2) the same signature on another path spelling
+	other := strings.Replace(u, "/bkt/aA", "/bkt/a%2541", 1)
+	if r := g.Do(gwtest.Req{Method: "GET", Target: other, NoAuth: true}); r.Status/100 == 2 {
+		t.Errorf("the url signed for /bkt/aA, sent to /bkt/a%%2541, answered %d %q", r.Status, r.Body)
+	}
+	// (1) parameters appended behind a parameter named '#'
+	up := g.Presign(g.RootC, "GET", "/bkt/tagged", 600, now)
+	if r := g.Do(gwtest.Req{Method: "GET", Target: up + "&%23=&tagging=", NoAuth: true}); r.Status/100 == 2 && strings.Contains(string(r.Body), "Tagging") {
+		t.Errorf("the url signed for GET /bkt/tagged, with \"&%%23=&tagging=\" appended, answered the tagging sub-resource: %d %s", r.Status, r.Body)
 	}
 }
